@@ -11,6 +11,7 @@ Q = ('O', ['h', P])
 V3 = ('V', ['i', 's', P])
 VT = ('VZ', ['i', 's', ('O', ['i'])])
 TYPES = {
+    'S': 's',          # a std::string by itself
     'P': P,
     'Q': Q,
     'R': ('O', [('P', 'i', 's'), ('V', ['i', 's']), ('T', ['i', 'i'])]),
@@ -62,6 +63,39 @@ GRID_THOROUGH.update({
     'l': ['-4611686018427387904', '-1', '0', '1099511627776'],
 })
 SHORTEST = {k: min(v, key=len) for k, v in GRID_QUICK.items()}
+
+# long strings: lengths around the small-string buffer and around every plausible "only look at part of it" threshold
+LONG_LENGTHS = [15, 16, 17, 31, 32, 33, 63, 64, 65, 127, 128, 129, 255, 256, 257, 1000, 4096]
+
+
+def long_base(n):
+    return "".join(chr(97 + (i * 7 + i // 26) % 26) for i in range(n))
+
+
+def long_variants(n):
+    """(name, string) pairs: the base string of length n changed in exactly one position (first, last, middle, 32 / 33
+    characters from either end) or with two different middle characters exchanged"""
+    b = long_base(n)
+    out = []
+    pos = {"first": 0, "last": n - 1, "middle": n // 2, "at32": 32, "at33": 33, "end32": n - 32, "end33": n - 33, "at31": 31, "end34": n - 34}
+    seen = set()
+    for name, i in pos.items():
+        if 0 <= i < n and i not in seen:
+            seen.add(i)
+            out.append((name, b[:i] + ("Z" if b[i] != "Z" else "Y") + b[i + 1:]))
+    i = n // 2
+    j = i - 1
+    while j >= 0 and b[j] == b[i]:
+        j -= 1
+    if j >= 0:
+        l = list(b)
+        l[i], l[j] = l[j], l[i]
+        out.append(("swap", "".join(l)))
+    return out
+
+
+LONG_TOKENS = sorted(set('s' + hx(x) for n in LONG_LENGTHS for x in [long_base(n)] + [v for _, v in long_variants(n)]))
+LONG_STRING_TYPES = ('S', 'T1', 'P', 'Q', 'PR', 'T3', 'TN', 'R', 'V3', 'UP', 'SQ', 'TU', 'PV', 'VT', 'OV', 'PVT')
 
 
 def is_leaf(sh):
@@ -216,6 +250,8 @@ class C16(Check):
     rule = ("values of 23 C++ types (6 tuple_operators structs incl. nested, empty and mixed-width ones; tuples, pairs, variants, unique_ptr/"
             "shared_ptr and tuples/pairs of them; a variant with an alternative whose constructor throws, driven into valueless_by_exception(), "
             "alone and as tuple / pair / tuple_operators member / pointee) over small grids of leaves (ints {-1,0,1,2^31-1}, strings {'',a,b,ab}, doubles {-0.0,0.0,1.5}, "
+            "plus LONG strings of lengths 15..17, 31..33, 63..65, 127..129, 255..257, 1000, 4096 in pairs differing in one character (first, last, "
+            "middle, 31..34 from either end) or by a swap of two middle characters, as the string component of 16 shapes, "
             "short/char/unsigned/long long/bool/float grids; larger grids in the thorough tier): ALL ordered pairs of P (and of Q in the thorough "
             "tier), for every type structured pairs (equal copy, -0.0 vs 0.0, one leaf changed, two components swapped) and random pairs, "
             "sampled/all triples for transitivity, unordered_set/map insert-a-subset-then-probe-the-grid cases; HISTORY cases for the tuple_operators "
@@ -233,7 +269,7 @@ class C16(Check):
     # ---- std::hash of every grid leaf, asked from the real library through the driver ----
     def table(self):
         if self._table is None:
-            toks = sorted(set(k + t for g in (GRID_QUICK, GRID_THOROUGH) for k, vs in g.items() for t in vs))
+            toks = sorted(set(k + t for g in (GRID_QUICK, GRID_THOROUGH) for k, vs in g.items() for t in vs) | set(LONG_TOKENS))
             binp = framework.build_cpp(**self.cpp)
             outs, _ = framework.run_lines(binp, ["leaf " + ";".join(toks)])
             w = outs[0].split()
@@ -382,6 +418,28 @@ class C16(Check):
                 l = [x, y, z]
                 rng.shuffle(l)
                 yield "t %s %s %s %s" % (t, W(l[0]), W(l[1]), W(l[2])), "triple-structured"
+        # (vi) LONG string components, in related pairs that differ in exactly one character (first, last, middle, 32/33 from
+        # either end) or by a swap of two middle characters, inside every composite shape that has a string: equal-length
+        # strings with different std::hash words must give different composite hashes (any collision in this set is a violation)
+        for t in LONG_STRING_TYPES:
+            sh = TYPES[t]
+            for n in LONG_LENGTHS:
+                if quick and n == 4096 and t not in ('S', 'P', 'T1'):
+                    continue
+                for name, var in long_variants(n):
+                    for _ in range(60):
+                        x = random_value(sh, GRID_QUICK, rng)
+                        sp = [p for p in leaf_paths(x) if self.leaf_at(x, p)[1] == 's']
+                        if sp:
+                            break
+                    else:
+                        continue
+                    pth = rng.choice(sp)
+                    x = replace_at(x, pth, lambda l: ('L', 's', hx(long_base(n))))
+                    y = replace_at(x, pth, lambda l: ('L', 's', hx(var)))
+                    if rng.random() < 0.5:
+                        x, y = y, x
+                    yield "p %s %s %s" % (t, W(x), W(y)), "long-string"
         # (v) HISTORIES (tuple_operators types P and Q): an object built from a, used (hashed / stored in a set), brought
         # to the value b in place (member-wise, through as_tuple(), whole-object copy / move assignment), directly or
         # through a copy made before / after the first use, observed itself or through a copy / move of it, then compared
